@@ -131,6 +131,11 @@ type gstate struct {
 
 // snapshot reads the scheduler state of the given goroutines from one stop-the-world stack dump.
 func (s *ilvRun) snapshot(ids []uint64) []gstate {
+	return statesIn(s.dumpAll(), ids)
+}
+
+// dumpAll is one stop-the-world dump of all goroutines.
+func (s *ilvRun) dumpAll() []byte {
 	if s.buf == nil {
 		s.buf = make([]byte, 256<<10)
 	}
@@ -142,7 +147,10 @@ func (s *ilvRun) snapshot(ids []uint64) []gstate {
 		}
 		s.buf = make([]byte, 2*len(s.buf))
 	}
-	dump := s.buf[:n]
+	return s.buf[:n]
+}
+
+func statesIn(dump []byte, ids []uint64) []gstate {
 	out := make([]gstate, len(ids))
 	for i, id := range ids {
 		needle := []byte("goroutine " + strconv.FormatUint(id, 10) + " [")
